@@ -13,7 +13,7 @@ for d in sorted(glob.glob('/verif/seeded/C*')):
     rows.append((name, m.get('property'), summ, own, ' '.join(others) or ('(not run)' if m.get('caught_by_note') else '-')))
 out = []
 out.append('## 6. Seeded behaviour-breaking changes and which checks report them\n')
-out.append('''%d changes (rounds `<id>-<k>`, `<id>-r2<k>`, ... `<id>-r11<k>`), each written by an independent sub-agent that was given only the text
+out.append('''%d changes (rounds `<id>-<k>`, `<id>-r2<k>`, ... `<id>-r12<k>`; round 12: ten properties, all 20 changes reported at once), each written by an independent sub-agent that was given only the text
 of one property and a scratch worktree (nothing from /verif), each needing something
 specific to manifest (an input class, an aliasing pattern, a build configuration, a
 call order), each building and passing the whole pinned suite, each with a demonstration
